@@ -3,6 +3,6 @@
    list, pairs, unit; ascii as char, string as char list); Z, N, positive and
    nat stay the extracted inductive types. *)
 From Coq Require Import Extraction ExtrOcamlBasic ExtrOcamlString.
-From Mpath.Model Require Import Wire.
+From Mpath.Model Require Import Wire WireAll.
 Extraction Language OCaml.
-Extraction "model.ml" run_case.
+Extraction "model.ml" run_case_all.
